@@ -357,6 +357,7 @@ def coverage_of(results, scenarios):
         per.append({"scenario": s.name, "class_family": s.group, "MaxN": s.maxn, "forces": list(s.forces),
                     "bad_arguments": s.bad, "tlc_distinct_states": r["mc"]["tlc"]["distinct"],
                     "tlc_transitions": r["mc"]["tlc"]["generated"], "tlc_depth": r["mc"]["tlc"]["depth"],
+                    "cut_by_time_limit": bool(r["mc"].get("cut_by_time_limit")),
                     "walk_transitions": (r["mc"].get("walk") or {}).get("transitions"),
                     "walk_executions": (r["mc"].get("walk") or {}).get("executions"),
                     "traces": [{"family_index": v.get("family_index"), "events": v.get("events"),
@@ -375,5 +376,5 @@ def coverage_of(results, scenarios):
         "pair_transitions_with_unequal_graphs": eq_false,
         "samples": samples or [{"note": "no walk in this run"}],
         "scenarios": per,
-        "exhaustive": True,
+        "exhaustive": not any(r["mc"].get("cut_by_time_limit") for r in results),
     }
